@@ -154,3 +154,32 @@ func VerifDumpActivity(a *Activity) []int {
 	}
 	return o.Toks
 }
+
+// VerifStamp: the date field a Timestamp() is computed from (state 0 value / 1 absent / 2 error, Unix seconds), for posts,
+// actors and activities (for an activity also its target's Timestamp), followed by what Timestamp() returned.
+func VerifStamp(t Tangible) []int {
+	put := func(out []int, v int64) []int {
+		u := uint64(v)
+		return append(out, int(u>>32), int(u&0xffffffff))
+	}
+	state := func(err error) int {
+		switch {
+		case err == nil:
+			return 0
+		case errors.Is(err, object.ErrKeyNotPresent):
+			return 1
+		}
+		return 2
+	}
+	switch x := t.(type) {
+	case *Post:
+		return put(put([]int{0, state(x.createdErr)}, x.created.Unix()), x.Timestamp().Unix())
+	case *Actor:
+		return put(put([]int{1, state(x.joinedErr)}, x.joined.Unix()), x.Timestamp().Unix())
+	case *Activity:
+		out := put([]int{2, state(x.createdErr)}, x.created.Unix())
+		out = put(out, x.target.Timestamp().Unix())
+		return put(out, x.Timestamp().Unix())
+	}
+	return []int{-1}
+}
